@@ -434,7 +434,7 @@ def dict_method(self, st, ref, o, name, args, kwargs, node):
         default = args[1] if len(args) > 1 else kwargs.get("default")
         if o.items is not None:
             for k, v in o.items:
-                r = self.x_eq(st, k, args[0])
+                r = self.x_key_eq(st, k, args[0])
                 if r is True:
                     return [(st, "val", v)]
                 if isinstance(r, Top):
@@ -457,7 +457,7 @@ def dict_method(self, st, ref, o, name, args, kwargs, node):
     if name in ("update", "setdefault", "clear"):
         if name == "setdefault" and o.items is not None:
             for k, v in o.items:
-                if self.x_eq(st, k, args[0]) is True:
+                if self.x_key_eq(st, k, args[0]) is True:
                     return [(st, "val", v)]
             o.items.append((args[0], args[1] if len(args) > 1 else None))
             return [(st, "val", args[1] if len(args) > 1 else None)]
@@ -476,7 +476,7 @@ def dict_method(self, st, ref, o, name, args, kwargs, node):
         default = args[1] if len(args) > 1 else KeyError
         if o.items is not None:
             for i, (k, v) in enumerate(o.items):
-                if self.x_eq(st, k, args[0]) is True:
+                if self.x_key_eq(st, k, args[0]) is True:
                     o.items.pop(i)
                     return [(st, "val", v)]
             if default is KeyError:
